@@ -240,7 +240,13 @@ def rule_take(R):
     R.ob("take/length", okl, "take_packet returns the packet's own length", where=tp.span)
 
 
+def rule_interleave(R):
+    from .c01 import clause_steps_gated
+    clause_steps_gated(R, "write/no-interleave")
+
+
 def run(R):
+    R.rule("interleave", rule_interleave)
     R.rule("read", rule_read)
     R.rule("look-ahead", rule_lookahead)
     R.rule("write", rule_write)
